@@ -40,6 +40,9 @@ type Action struct {
 type BCase struct {
 	V2      bool     `json:"v2"` // target PDF 2.0 (else 1.7)
 	Actions []Action `json:"actions"`
+	// Cuts select truncation points of the final stream (index modulo its
+	// length + 1) at which State.ClosingOperators is driven.
+	Cuts []int `json:"cuts,omitempty"`
 
 	// observations for Classify
 	verdict    string // "balanced", "unbalanced", "rejected", "unmodelled"
@@ -65,12 +68,18 @@ const (
 type savedBits struct{ font, tm bool }
 
 type model struct {
-	v2    bool
-	obj   int
-	nest  []byte // 'q', 'T' (BT), 'M' (BMC/BDC), innermost last
-	font  bool   // a font has been selected (Tf)
-	tm    bool   // text matrix defined (inside BT..ET)
-	saved []savedBits
+	v2   bool
+	obj  int
+	nest []byte // 'q', 'T' (BT), 'M' (BMC/BDC), innermost last
+	font bool   // a font has been selected (Tf)
+	tm   bool   // text matrix defined (inside BT..ET)
+	// tmVague: a Q whose q was opened outside the current text object was
+	// accepted inside it (q BT Q ...).  Whether the text matrix counts as
+	// defined afterwards depends on State internals (the "usable" bit for the
+	// text matrix is saved by q, and is initially set for page streams), so
+	// calls which need it may be accepted or rejected.
+	tmVague bool
+	saved   []savedBits
 }
 
 func newModel(v2 bool) *model { return &model{v2: v2, obj: ctxPage} }
@@ -97,6 +106,17 @@ func (m *model) open(kind byte) bool {
 	return false
 }
 
+// removeInnermost removes the innermost open pair of the given kind and
+// leaves all other pairs open.
+func (m *model) removeInnermost(kind byte) {
+	for i := len(m.nest) - 1; i >= 0; i-- {
+		if m.nest[i] == kind {
+			m.nest = append(m.nest[:i], m.nest[i+1:]...)
+			return
+		}
+	}
+}
+
 func (m *model) top() byte {
 	if len(m.nest) == 0 {
 		return 0
@@ -120,6 +140,11 @@ const (
 	accept verdict = iota
 	reject
 	unmodelled // the model makes no prediction; the case is not asserted
+	// either: a closer whose opener is not the innermost open pair
+	// (overlapping pairs such as q BMC Q).  The State tolerates these; the
+	// Builder may accept or reject the call.  If it accepts, the model goes on
+	// with the matched pair removed and every other pair still open.
+	either
 )
 
 var paintOps = map[string]string{"Stroke": "S", "CloseAndStroke": "s", "Fill": "f", "FillEvenOdd": "f*",
@@ -175,7 +200,8 @@ func invalidParam(a *Action) bool {
 }
 
 // step predicts what the Builder does with the call and advances the model.
-// On reject and unmodelled the model is left unchanged.
+// On reject and unmodelled the model is left unchanged.  On either the model
+// is advanced as if the call was accepted.
 func (m *model) step(a *Action) (verdict, []item, string) {
 	in := func(mask int) bool { return m.obj&mask != 0 }
 	no := func(why string) (verdict, []item, string) { return reject, nil, why }
@@ -212,14 +238,18 @@ func (m *model) step(a *Action) (verdict, []item, string) {
 		if !m.open('q') {
 			return no("Q without q")
 		}
+		v := accept
 		if m.top() != 'q' {
-			return unmodelled, nil, "cross-nested Q"
+			v = either
 		}
 		s := m.saved[len(m.saved)-1]
 		m.saved = m.saved[:len(m.saved)-1]
-		m.nest = m.nest[:len(m.nest)-1]
+		m.removeInnermost('q')
 		m.font, m.tm = s.font, s.tm
-		return accept, one("Q"), ""
+		if v == either && in(ctxText) {
+			m.tm, m.tmVague = true, true
+		}
+		return v, one("Q"), "overlapping pairs: Q"
 
 	case "Transform":
 		if !in(ctxPage) {
@@ -267,23 +297,24 @@ func (m *model) step(a *Action) (verdict, []item, string) {
 		}
 		m.obj = ctxText
 		m.nest = append(m.nest, 'T')
-		m.tm = true
+		m.tm, m.tmVague = true, false
 		return accept, one("BT"), ""
 
 	case "TextEnd":
 		if !in(ctxText) {
 			return no("ET outside text object")
 		}
+		v := accept
 		if m.top() != 'T' {
-			return unmodelled, nil, "cross-nested ET"
+			v = either
 		}
-		m.nest = m.nest[:len(m.nest)-1]
+		m.removeInnermost('T')
 		m.obj = ctxPage
-		m.tm = false
-		return accept, one("ET"), ""
+		m.tm, m.tmVague = false, false
+		return v, one("ET"), "overlapping pairs: ET"
 
 	case "TextShow":
-		if !in(ctxText) || !m.font || !m.tm || len(a.S) == 0 {
+		if !in(ctxText) || !m.font || !m.tm || m.tmVague || len(a.S) == 0 {
 			return unmodelled, nil, "TextShow outside its documented use"
 		}
 		return accept, []item{{Names: []string{"Tj", "TJ", "Ts"}, Min: 0, Max: 3 * len(a.S)}}, ""
@@ -311,11 +342,12 @@ func (m *model) step(a *Action) (verdict, []item, string) {
 		if !m.open('M') {
 			return no("EMC without BMC")
 		}
+		v := accept
 		if m.top() != 'M' {
-			return unmodelled, nil, "cross-nested EMC"
+			v = either
 		}
-		m.nest = m.nest[:len(m.nest)-1]
-		return accept, one("EMC"), ""
+		m.removeInnermost('M')
+		return v, one("EMC"), "overlapping pairs: EMC"
 
 	case "DrawInlineImageRaw":
 		if !in(ctxPage) {
@@ -357,6 +389,9 @@ func (m *model) step(a *Action) (verdict, []item, string) {
 		if a.M == "TextNextLine" && !m.tm {
 			return no("T* without text matrix")
 		}
+		if a.M == "TextNextLine" && m.tmVague {
+			return either, one(name), "text matrix after an overlapping Q"
+		}
 		return accept, one(name), ""
 	}
 	if name, ok := textShowing[a.M]; ok {
@@ -368,6 +403,9 @@ func (m *model) step(a *Action) (verdict, []item, string) {
 		}
 		if !m.tm {
 			return no("text showing without text matrix")
+		}
+		if m.tmVague {
+			return either, one(name), "text matrix after an overlapping Q"
 		}
 		return accept, one(name), ""
 	}
@@ -773,6 +811,14 @@ func (r *runner) do(pos string, a *Action, inBuild bool) error {
 	if v == reject {
 		return r.rejected(pos, a, why)
 	}
+	if v == either {
+		if b.Err != nil {
+			// allowed: the Builder refuses overlapping pairs
+			c.verdict, c.reason, r.stop = "rejected", why+" refused", true
+			return nil
+		}
+		c.events["overlapping-pairs"] = true
+	}
 	if b.Err != nil {
 		return fmt.Errorf("action %s (%s %v): the Builder rejected a valid call: %v; calls %s", pos, a.M, a.F, b.Err, describe(c.Actions))
 	}
@@ -828,9 +874,82 @@ func checkBuilder(c *BCase) error {
 	}
 
 	for gi, g := range r.done {
-		if err := checkGroup(c, gi, g, b.Resources, version, balanced); err != nil {
+		if err := checkGroup(c, gi, g, b.Resources, version, balanced, len(m.nest) == 0); err != nil {
 			return err
 		}
+	}
+	return nil
+}
+
+// pairCount counts the paired operators of a scanned stream without any help
+// from content.State: q/Q, BT/ET, BMC|BDC/EMC, BX/EX.  It returns the number
+// of pairs left open per kind and whether a closer came without an opener.
+func pairCount(ops []scanned) (open map[string]int, underflow string) {
+	open = map[string]int{}
+	kinds := map[content.OpName]struct {
+		kind  string
+		delta int
+	}{"q": {"q/Q", 1}, "Q": {"q/Q", -1}, "BT": {"BT/ET", 1}, "ET": {"BT/ET", -1},
+		"BMC": {"BMC/EMC", 1}, "BDC": {"BMC/EMC", 1}, "EMC": {"BMC/EMC", -1},
+		"BX": {"BX/EX", 1}, "EX": {"BX/EX", -1}}
+	for i, op := range ops {
+		if k, ok := kinds[op.Name]; ok {
+			open[k.kind] += k.delta
+			if open[k.kind] < 0 && underflow == "" {
+				underflow = fmt.Sprintf("operator %d (%s) closes a %s pair which is not open", i, op.Name, k.kind)
+			}
+		}
+	}
+	for k, v := range open {
+		if v == 0 {
+			delete(open, k)
+		}
+	}
+	return open, underflow
+}
+
+// checkClosers truncates the valid stream ops after k operators, appends
+// what State.ClosingOperators asks for, and demands that the result, written
+// and scanned again, is valid and balanced under the independent pair count.
+func checkClosers(c *BCase, ops []scanned, k int, res *content.Resources, version pdf.Version) error {
+	st := content.NewState(content.Page, res)
+	st.Version = version
+	out := make([]content.Operator, 0, k+4)
+	for i := 0; i < k; i++ {
+		if err := st.ApplyOperator(ops[i].Name, ops[i].Args); err != nil {
+			return fmt.Errorf("truncation at %d: operator %d (%s) rejected: %v", k, i, ops[i].Name, err)
+		}
+		out = append(out, content.Operator{Name: ops[i].Name, Args: ops[i].Args})
+	}
+	closers := st.ClosingOperators()
+	for _, name := range closers {
+		out = append(out, content.Operator{Name: name})
+	}
+	text, err := formatOps(out)
+	if err != nil {
+		return err
+	}
+	got, err := scanBytes(text)
+	if err != nil {
+		return err
+	}
+	if len(got) != len(out) {
+		return fmt.Errorf("truncation at %d + closers %v: wrote %d operators, read %d", k, closers, len(out), len(got))
+	}
+	open, underflow := pairCount(got)
+	if underflow != "" || len(open) != 0 {
+		return fmt.Errorf("truncation at %d of the stream of %s: after the closers %v of State.ClosingOperators the pairs %v are still open (%s) in %q",
+			k, describe(c.Actions), closers, open, underflow, clip(text))
+	}
+	st2 := content.NewState(content.Page, res)
+	st2.Version = version
+	for i, op := range got {
+		if err := st2.ApplyOperator(op.Name, op.Args); err != nil {
+			return fmt.Errorf("truncation at %d + closers %v: operator %d (%s) of %q is rejected: %v", k, closers, i, op.Name, clip(text), err)
+		}
+	}
+	if err := st2.CanClose(); err != nil {
+		return fmt.Errorf("truncation at %d + closers %v: CanClose() = %v for %q", k, closers, err, clip(text))
 	}
 	return nil
 }
@@ -839,7 +958,7 @@ func checkBuilder(c *BCase) error {
 // the calls document, they re-scan to themselves, and they are valid (and,
 // for the last stream, balanced exactly if the model says so) for a fresh
 // State of the Builder's version.
-func checkGroup(c *BCase, gi int, g group, res *content.Resources, version pdf.Version, balanced bool) error {
+func checkGroup(c *BCase, gi int, g group, res *content.Resources, version pdf.Version, balanced, nestEmpty bool) error {
 	segs := g.segs
 	if len(segs) > c.segments {
 		c.segments = len(segs)
@@ -914,9 +1033,30 @@ func checkGroup(c *BCase, gi int, g group, res *content.Resources, version pdf.V
 				gi, i, op.Name, clip(text), version, err, describe(c.Actions))
 		}
 	}
+	// State.ClosingOperators completes every prefix of a valid stream
+	for _, cut := range c.Cuts {
+		if cut < 0 {
+			cut = -cut
+		}
+		if err := checkClosers(c, got, cut%(len(got)+1), res, version); err != nil {
+			return err
+		}
+		c.events["closers-at-truncation"] = true
+	}
 	if !g.final {
 		// harvested before a Reset: a prefix of a valid stream, nothing more
 		return nil
+	}
+	// the balance verdict of an independent pair count: the pairs left open
+	// are exactly the ones the model has open (Close() was compared with the
+	// model by the caller)
+	open, underflow := pairCount(got)
+	if underflow != "" {
+		return fmt.Errorf("stream %q of %s: %s", clip(text), describe(c.Actions), underflow)
+	}
+	if nestEmpty != (len(open) == 0) {
+		return fmt.Errorf("stream %q of %s: the Builder's Close() agrees with the model (pairs all closed: %v) but the stream has the pairs %v open",
+			clip(text), describe(c.Actions), nestEmpty, open)
 	}
 	// ... and balanced
 	closers := st.ClosingOperators()
@@ -1149,6 +1289,9 @@ func genSeq(t *rapid.T, m *model, n, wildAt int, top bool) (acts []Action, rejec
 			if v == accept || (wild && v == reject) {
 				break
 			}
+			if v == either && rapid.IntRange(0, 2).Draw(t, "overlap") == 0 {
+				break
+			}
 			if try > 20 {
 				a = Action{M: "TextSetLeading", F: []float64{12}}
 				break
@@ -1264,11 +1407,86 @@ func qScenario(t *rapid.T, c *BCase, m *model) {
 	}
 }
 
+// overlapScenario draws a case in which two or three pairs of different
+// kinds (q/Q, BT/ET, BMC|BDC/EMC) are opened and then closed in an arbitrary
+// order, each closer present three times in four: q BMC Q, BMC q EMC, BT q ET,
+// q BMC Q EMC, ...
+func overlapScenario(t *rapid.T, c *BCase, m *model) {
+	pre, rejected := genSeq(t, m, rapid.IntRange(0, 3).Draw(t, "npre"), -1, false)
+	c.Actions = append(c.Actions, pre...)
+	if rejected {
+		return
+	}
+	if m.obj != ctxPage && m.obj != ctxText {
+		c.Actions = append(c.Actions, closers(t, m)...)
+	}
+	step := func(a Action) bool {
+		v, _, _ := m.step(&a)
+		c.Actions = append(c.Actions, a)
+		return v != reject && v != unmodelled
+	}
+	filler := func() bool {
+		acts, rej := genSeq(t, m, rapid.IntRange(0, 2).Draw(t, "nfill"), -1, false)
+		c.Actions = append(c.Actions, acts...)
+		if !rej && (m.obj == ctxPath || m.obj == ctxClip) {
+			return step(Action{M: "EndPath"})
+		}
+		return !rej
+	}
+	closerOf := map[string]string{"PushGraphicsState": "PopGraphicsState", "TextBegin": "TextEnd", "MarkedContentStart": "MarkedContentEnd"}
+	kinds := rapid.Permutation([]string{"PushGraphicsState", "TextBegin", "MarkedContentStart"}).Draw(t, "openers")
+	kinds = kinds[:rapid.IntRange(2, 3).Draw(t, "nkinds")]
+	var opened []string
+	for _, k := range kinds {
+		a := Action{M: k}
+		if k == "MarkedContentStart" {
+			a = drawAction(t, k, false)
+		}
+		if v, _, _ := m.clone().step(&a); v != accept {
+			continue // e.g. BT inside a text object, q in text before 2.0
+		}
+		step(a)
+		opened = append(opened, closerOf[k])
+		if !filler() {
+			return
+		}
+	}
+	if len(opened) == 0 {
+		return
+	}
+	// outer-first order is the interesting one; other orders appear too
+	order := opened
+	if rapid.IntRange(0, 2).Draw(t, "shuffle") == 0 {
+		order = rapid.Permutation(opened).Draw(t, "closeorder")
+	}
+	for _, k := range order {
+		if rapid.IntRange(0, 3).Draw(t, "skipcloser") == 0 {
+			continue
+		}
+		if !step(Action{M: k}) {
+			return
+		}
+		if rapid.Bool().Draw(t, "fill") && !filler() {
+			return
+		}
+	}
+	if rapid.IntRange(0, 3).Draw(t, "closerest") == 0 {
+		c.Actions = append(c.Actions, closers(t, m)...)
+	}
+}
+
 func genBCase(t *rapid.T) BCase {
 	c := BCase{V2: rapid.IntRange(0, 2).Draw(t, "v2") == 0}
+	for range rapid.IntRange(0, 3).Draw(t, "ncuts") {
+		c.Cuts = append(c.Cuts, rapid.IntRange(0, 200).Draw(t, "cut"))
+	}
 	m := newModel(c.V2)
-	if rapid.IntRange(0, 7).Draw(t, "qscenario") == 0 {
+	switch rapid.IntRange(0, 9).Draw(t, "scenario") {
+	case 0:
 		qScenario(t, &c, m)
+		return c
+	case 1, 2:
+		overlapScenario(t, &c, m)
 		return c
 	}
 	n := rapid.IntRange(0, 40).Draw(t, "n")
